@@ -123,4 +123,70 @@ theorem expectedSamples_go_shape (cfg : Config) (rs : List Rec) :
       · exact ih _ _ _ _ e he
     · exact ih _ _ _ _ e he
 
+/-! ### without special-path records the legacy reading `legacySp` is the statement's reading -/
+
+theorem annStepX_noSpecial (cfg : Config) (st : List (Nat × Announced)) (r : Rec) (h : noSpecial [r] = true) :
+    annStepX true cfg st r = annStepX false cfg st r := by
+  cases r with
+  | mmap2 pid tid addr len pgoff exec path t =>
+    cases exec with
+    | false => rfl
+    | true =>
+      have hsp : specialPath path = false := by simpa [noSpecial] using h
+      simp [annStepX, hsp]
+  | comm pid tid nm ex t => cases ex <;> rfl
+  | _ => rfl
+
+theorem laterAnn_noSpecial (cfg : Config) (pid : Nat) (cut : Option Nat) (rest : List Rec)
+    (h : noSpecial rest = true) : laterAnn true cfg pid cut rest = laterAnn false cfg pid cut rest := by
+  induction rest with
+  | nil => rfl
+  | cons r rest ih =>
+    have h1 : noSpecial [r] = true := by
+      simp only [noSpecial, List.all_cons, Bool.and_eq_true] at h ⊢
+      exact ⟨h.1, by simp⟩
+    have h2 : noSpecial rest = true := by
+      simp only [noSpecial, List.all_cons, Bool.and_eq_true] at h ⊢
+      exact h.2
+    have ih' := ih h2
+    cases r with
+    | mmap2 p td addr len pgoff exec path t' =>
+      cases exec with
+      | false => simpa [laterAnn] using ih'
+      | true =>
+        have hsp : specialPath path = false := by simpa [noSpecial] using h1
+        simp only [laterAnn, hsp, Bool.and_false, Bool.not_false, Bool.and_true, ih']
+    | exit p td t' => simp only [laterAnn, ih']
+    | comm p td nm ex t' =>
+      cases ex with
+      | false => simpa [laterAnn] using ih'
+      | true => simp only [laterAnn, ih']
+    | sample => simpa [laterAnn] using ih'
+    | fork => simpa [laterAnn] using ih'
+    | switchIn => simpa [laterAnn] using ih'
+    | switchOut => simpa [laterAnn] using ih'
+    | sched => simpa [laterAnn] using ih'
+
+theorem expectedSamples_go_legacySp (cfg : Config) (rs : List Rec) (h : noSpecial rs = true) :
+    ∀ (st : List (Nat × Announced)) (mx : List (Nat × Nat)) (last : Last),
+      ∀ e ∈ expectedSamples.go cfg st st mx last rs, e.legacySp = e.frames := by
+  induction rs with
+  | nil => intro st mx last e he; simp [expectedSamples.go] at he
+  | cons r rest ih =>
+    intro st mx last e he
+    have h1 : noSpecial [r] = true := by
+      simp only [noSpecial, List.all_cons, Bool.and_eq_true] at h ⊢
+      exact ⟨h.1, by simp⟩
+    have h2 : noSpecial rest = true := by
+      simp only [noSpecial, List.all_cons, Bool.and_eq_true] at h ⊢
+      exact h.2
+    unfold expectedSamples.go at he
+    dsimp only at he
+    rw [annStepX_noSpecial cfg st r h1] at he
+    split at he
+    · rcases List.mem_cons.mp he with rfl | he
+      · simp only [laterAnn_noSpecial cfg _ _ rest h2]
+      · exact ih h2 _ _ _ e he
+    · exact ih h2 _ _ _ e he
+
 end Conv
